@@ -6,7 +6,10 @@
    One request.  `ctype` is the Content-Type it carries, HandlerOf[ctype] the kind of handler the
    mapping resolves it to ("json", "form", or "none" = unsupported; how that resolution works is
    C11's Handlers.tla).  `body` is what the client sent:
-        "empty"      no bytes
+        "empty"      no bytes: Empty(body) == (Len(body) = 0), nothing else is empty
+        "blank"      one or more bytes, all of them JSON whitespace (" ", "\n", "\r\n", "\t \n"): NOT empty,
+                     and not a document either, hence undecodable (BlankIsNotEmpty)             (json only)
+        "padded"     a valid serialisation with whitespace before / after it: still the document (json only)
         "valid"      Serialize(doc) for the document the response side was given
         "truncated"  a proper prefix of a serialisation that is not itself decodable   (json only)
         "badenc"     bytes that are not UTF-8 / not ASCII for forms
@@ -21,6 +24,11 @@
    "length" (a Content-Length header) or "chunked" (no Content-Length, the body simply ends:
    Transfer-Encoding: chunked on the wire, ASGI more_body events); what is parsed never depends
    on it (FramingIsIrrelevant) - the body is what the stream delivers, not what a header says.
+   Which handler a content type resolves to depends on its type/subtype only; its parameters
+   (charset=..., version=..., profile=...) change nothing in what is parsed - falcon's JSON handler
+   is documented as UTF-8 - on either stack and through either handler entry point (deserialize /
+   deserialize_async / the ASGI fast path): ContentTypeParametersAreIrrelevant, so they do not occur in
+   Deserialize.
    One action per public access: get_media() / get_media(default_when_empty=X) / the media property.
    Implementation-shaped rules are named: StreamIsConsumedByParse, ErrorsAreCached (switch
    CacheError), DefaultIsNotCached (switch CacheDefault), UnsupportedIsNotCached.               *)
@@ -50,12 +58,14 @@ Val(v)  == [k |-> "val", ek |-> "none", v |-> v]
 Err(ek) == [k |-> "err", ek |-> ek, v |-> "none"]
 Unset   == [k |-> "unset", ek |-> "none", v |-> "none"]
 
+Empty(b) == b = "empty"          \* i.e. Len(body) = 0; a body of whitespace has Len > 0
+
 Deserialize(hk, b) ==
-    IF hk = "json" THEN (CASE b = "empty" -> Err("notfound")        \* MediaNotFoundError
-                           [] b = "valid" -> Val("doc")             \* the round-trip law
+    IF hk = "json" THEN (CASE Empty(b)    -> Err("notfound")        \* MediaNotFoundError
+                           [] b \in {"valid", "padded"} -> Val("doc")   \* the round-trip law
                            [] b = "hookfail" -> Err("custom")       \* whatever the handler raised
                            [] OTHER       -> Err("malformed"))      \* MediaMalformedError
-    ELSE                (CASE b = "empty" -> Val("empty")           \* "an empty body will be parsed as an empty dict"
+    ELSE                (CASE Empty(b)    -> Val("empty")           \* "an empty body will be parsed as an empty dict"
                            [] b = "valid" -> Val("doc")
                            [] OTHER       -> Err("malformed"))
 
@@ -71,7 +81,7 @@ TypeOK == /\ cache.k \in {"unset", "val", "err"} /\ parses \in 0..100 /\ consume
 
 Init == /\ stack \in Stacks /\ framing \in Framings[stack] /\ ctype \in CTypes /\ body \in BodyKinds
         /\ (HandlerOf[ctype] = "form" => body # "truncated")
-        /\ (body = "hookfail" => HandlerOf[ctype] = "json")
+        /\ (body \in {"hookfail", "blank", "padded"} => HandlerOf[ctype] = "json")
         /\ cache = Unset /\ consumed = FALSE /\ parses = 0
         /\ last = Rec("init", FALSE, "none", "none", "none", FALSE, FALSE)
 
@@ -117,13 +127,14 @@ SameObjectOrSameError ==
     Called => /\ (last.out = "val" => cache = Val(last.v) /\ last.same)
               /\ (last.out = "err" /\ last.ek # "unsupported" => cache = Err(last.ek))
               /\ (last.out = "dflt" => cache = Err("notfound"))
-DefaultOnlyForEmpty == (Called /\ last.out = "dflt") => (last.d /\ body = "empty" /\ Handler = "json")
+DefaultOnlyForEmpty == (Called /\ last.out = "dflt") => (last.d /\ Empty(body) /\ Handler = "json")
 DefaultNotCached    == cache.k = "val" => cache.v # "dflt"
 EmptyIsDocumented   == (Called /\ body = "empty" /\ Handler = "json" /\ ~last.d) => (last.out = "err" /\ last.ek = "notfound")
 EmptyFormIsEmptyMapping == (Called /\ body = "empty" /\ Handler = "form") => (last.out = "val" /\ last.v = "empty")
-MalformedIs400Class == (Called /\ body \in {"truncated", "badenc"} /\ Handler # "none") =>
+MalformedIs400Class == (Called /\ body \in {"truncated", "badenc", "blank"} /\ Handler # "none") =>
                            (last.out = "err" /\ last.ek = "malformed" /\ last.status = 400)
 CustomErrorIsKept   == (Called /\ body = "hookfail") => (last.out = "err" /\ last.ek = "custom" /\ last.same /\ parses = 1)
-RoundTrip           == (Called /\ body = "valid" /\ Handler # "none") => (last.out = "val" /\ last.v = "doc")
+BlankIsNotEmpty     == (Called /\ body = "blank") => (last.out = "err" /\ last.ek = "malformed")     \* also when a default was given
+RoundTrip           == (Called /\ body \in {"valid", "padded"} /\ Handler # "none") => (last.out = "val" /\ last.v = "doc")
 UnsupportedIs415    == (Called /\ Handler = "none") => (last.out = "err" /\ last.status = 415 /\ parses = 0 /\ ~consumed)
 ===========================================================================
